@@ -115,6 +115,16 @@ def encode_produce_response(corr, topic, partition, error, offset):
           struct.pack('!ihq', partition, error, offset))
 
 
+def encode_produce_response_multi(corr, groups):
+  """groups: [(topic bytes, [(partition, error, offset), ...]), ...]"""
+  out = struct.pack('!i', corr) + struct.pack('!i', len(groups))
+  for topic, parts in groups:
+    out += enc_string(topic) + struct.pack('!i', len(parts))
+    for partition, error, offset in parts:
+      out += struct.pack('!ihq', partition, error, offset)
+  return out
+
+
 class KafkaBroker(object):
   def __init__(self, world, node_id):
     self.world = world
